@@ -642,8 +642,29 @@ impl Space for TargetSpace {
 // save did in between.
 
 const OV_A: [Wl; 4] = [Wl::Xlsx, Wl::Light, Wl::Pw, Wl::PwLight];
-const OV_B: [(Wl, &str); 3] = [(Wl::CsvSmall, "csv"), (Wl::Light, "xlsm"), (Wl::Xlsx, "tmp")];
-const OV_SITES: [(u32, &str); 2] = [(6, "A-has-created-its-temp-file"), (7, "A-is-about-to-write")];
+const OV_B: [(Wl, &str); 4] = [(Wl::CsvSmall, "csv"), (Wl::Light, "xlsm"), (Wl::Xlsx, "tmp"), (Wl::Pw, "xlsb")];
+/// 6/7: entry/exit of the package writer (for the plain savers inside the create-to-rename window); 13/14: inside
+/// helper::crypt::encrypt (compound file created / completely written) - passed by the password savers only
+const OV_SITES: [(u32, &str); 4] = [(6, "A-has-created-its-temp-file"), (7, "A-is-about-to-write"), (13, "A-has-created-its-compound-file"), (14, "A-has-written-its-compound-file")];
+fn ov_cases() -> &'static Vec<(Wl, (u32, &'static str), (Wl, &'static str), Pre)> {
+    static C: std::sync::OnceLock<Vec<(Wl, (u32, &'static str), (Wl, &'static str), Pre)>> = std::sync::OnceLock::new();
+    C.get_or_init(|| {
+        let mut v = vec![];
+        for a in OV_A {
+            for site in OV_SITES {
+                if site.0 >= 13 && !matches!(a, Wl::Pw | Wl::PwLight) {
+                    continue;
+                }
+                for b in OV_B {
+                    for pre in [Pre::Old, Pre::Absent] {
+                        v.push((a, site, b, pre));
+                    }
+                }
+            }
+        }
+        v
+    })
+}
 
 struct OvCtx {
     site: u32,
@@ -679,18 +700,12 @@ fn ov_hook(site: u32) {
 struct OverlapSpace;
 impl OverlapSpace {
     fn locate(i: u64) -> (Wl, (u32, &'static str), (Wl, &'static str), Pre) {
-        let pre = if i % 2 == 0 { Pre::Old } else { Pre::Absent };
-        let mut r = i / 2;
-        let b = OV_B[(r % OV_B.len() as u64) as usize];
-        r /= OV_B.len() as u64;
-        let site = OV_SITES[(r % OV_SITES.len() as u64) as usize];
-        r /= OV_SITES.len() as u64;
-        (OV_A[r as usize], site, b, pre)
+        ov_cases()[i as usize]
     }
 }
 impl Space for OverlapSpace {
     fn len(&self) -> u64 {
-        (OV_A.len() * OV_SITES.len() * OV_B.len() * 2) as u64
+        ov_cases().len() as u64
     }
     fn describe(&self, i: u64) -> Value {
         let (a, site, (b, ext_b), pre) = Self::locate(i);
@@ -735,6 +750,12 @@ impl Space for OverlapSpace {
         sink.obs(&format!("overlap|{}|{}|{}|{}|{}|{}|{}|{:?}", a.name(), site.1, b.name(), res_a.kind(), ca, res_b.kind(), cb, ls));
         sink.count(&format!("overlap:A:{}:{}", res_a.kind(), ca), 1);
         sink.count(&format!("overlap:B:{}:{}", res_b.kind(), cb), 1);
+        // nothing is injected here: a save that fails has been broken by the other one
+        for (who, r) in [("A", &res_a), ("B", &res_b)] {
+            if r.kind() != "ok" {
+                push(sink, Finding { clause: "control", symptom: format!("overlap-{}:fails-without-fault", who), detail: format!("save {} of two overlapping saves (A = {} -> book.{}, suspended at {}; B = {} -> book.{} run to completion there) returned {} although nothing was injected; directory afterwards {:?}", who, a.name(), a.ext(), site.1, b.name(), ext_b, r.text(), ls) }, &tags, &case);
+            }
+        }
         for (who, fs) in [("A", fa), ("B", fb)] {
             for mut f in fs {
                 f.detail = format!("save {} of two overlapping saves (A = {} -> book.{}, suspended at {}; B = {} -> book.{} run to completion there): {}; A returned {}, B returned {}; directory afterwards {:?}", who, a.name(), a.ext(), site.1, b.name(), ext_b, f.detail, res_a.text(), res_b.text(), ls);
